@@ -34,3 +34,25 @@ package consensus
 //@   requires forall k int :: 0 <= k && k < len(electionOf(cs, timestamp).Producers) ==> electionOf(cs, timestamp).Producers[k] != nil
 //@   ensures[exactly-the-slot-that-starts-at-the-timestamp] err == nil ==> (exists k int :: 0 <= k && k < len(electionOf(cs, timestamp).Producers) && timenano(electionOf(cs, timestamp).Producers[k].StartTime) == timenano(timestamp) && deref(producer) == electionOf(cs, timestamp).Producers[k].Producer)
 //@   modifies nothing
+
+// ======================================================================================================================
+// Property C06 (a reorganisation leaves no trace in the consensus statistics): points.DeleteMomentum does nothing, so the
+// comparison of a stored point's EndHash with the hash of the tick's end momentum ON THE CURRENT CHAIN is what removes an
+// abandoned branch from the stored statistics. Whatever GetPoint serves - a stored point or a freshly folded one - ends in
+// that momentum. (The folding itself, the store and the ticker are ASSUMED to leave the point objects alone: trusted frames.)
+//@ func ChainTicker.GetEndBlock(self, tick) -> (m, err)
+//@   ensures err == nil ==> m != nil
+//@   modifies nothing
+//@ func ChainTicker.HasStarted(self, tick)
+//@   modifies nothing
+//@ func ChainTicker.IsFinished(self, tick)
+//@   modifies nothing
+//@ func compoundPoints.generatePointFromLower(compound, tick, endBlock) -> (pt, err)
+//@   trusted
+//@   at-call NewEmptyPoint assert[folded-onto-the-tick's-end-momentum] arg0 == endBlock.Hash
+//@   ensures err == nil ==> pt != nil && fresh(pt) && pt.EndHash == endBlock.Hash
+//@   ensures err != nil ==> pt == nil
+//@   modifies nothing
+//@ func compoundPoints.GetPoint(compound, tick) -> (pt, err)
+//@   requires compound != nil && compound.db != nil
+//@   ensures-local[every-served-point-ends-in-the-tick's-end-momentum-of-the-current-chain] err == nil && pt != nil ==> endBlock != nil && pt.EndHash == endBlock.Hash
